@@ -263,6 +263,59 @@ func RunC03(c *Ctx) {
 			}
 		}
 	}
+	// 3d. error display matrix: building an error reads the source lines around it (line table, excerpt, cursor line),
+	// so the same errors are provoked under every combination of token separator, last separator and end of input
+	// (tabs, bare CR, CR LF, VT, FF; final CR / LF / tab / nothing), in the middle and at end of input
+	{
+		heads := []string{"SELECT 1 +", "SELECT", "CREATE TABLE", "CREATE TABLE t ( a", "ARRAY< INT64", "STRUCT<", "SELECT ( 1", "INSERT INTO t ( a ) VALUES (",
+			"UPDATE t SET", "1 +", "SELECT 1 FROM", "SELECT 1 )", "SELECT 1 1", "x y", "SELECT * FROM t WHERE )", "DELETE", "SELECT 'a", "SELECT 1 ; SELECT", "f ( a ,", "CASE WHEN a"}
+		seps := []string{" ", "\t", "\n", "\r", "\r\n", "\v", "\f"}
+		tails := []string{"", "\r", "\n", "\r\n", "\t", "\t\r", " \r", "\r\r", "\n\r", "\r\t", "\n\t", " ", "\v", "\r\n\r", "\t\n"}
+		var bads []string
+		for _, cc := range c.Corpus() {
+			if strings.Contains(cc.Name, "!bad_") && len(cc.Text) < 400 {
+				bads = append(bads, strings.TrimRight(cc.Text, "\n"))
+			}
+		}
+		for _, h := range heads {
+			toks := strings.Split(h, " ")
+			for _, s1 := range seps {
+				for _, s2 := range seps {
+					for _, tl := range tails {
+						if c.Mine(idx) {
+							in := strings.Join(toks[:len(toks)-1], s1)
+							if len(toks) > 1 {
+								in += s2
+							}
+							in += toks[len(toks)-1] + tl
+							for _, e := range allEntriesPlus {
+								CheckC03(c, e, in)
+							}
+							c.Count("error_display_matrix_inputs", 1)
+						}
+						idx++
+					}
+				}
+			}
+		}
+		for _, b := range bads {
+			for _, sp := range []string{" ", "\t", " \t"} {
+				for _, nl := range []string{"\n", "\r\n", "\r", "\t\n"} {
+					for _, tl := range tails {
+						if c.Mine(idx) {
+							in := strings.ReplaceAll(strings.ReplaceAll(b, "\n", "\x01"), " ", sp)
+							in = strings.ReplaceAll(in, "\x01", nl) + tl
+							for _, e := range allEntriesPlus {
+								CheckC03(c, e, in)
+							}
+							c.Count("error_display_matrix_inputs", 1)
+						}
+						idx++
+					}
+				}
+			}
+		}
+	}
 	openThenBroken(c, &idx, func(entry, input string) { CheckC03(c, entry, input) })
 	// 4. mutants, splices, random bytes
 	n := 0
